@@ -976,8 +976,13 @@ class ExcelCompiler:
                 else:
                     self.log.info(
                         f"Cell {cell.address} evaluated to '{value}' ({type(value).__name__})")
-                cell.value = (value[0][0] if list_like(value[0]) else value[0]
-                              ) if list_like(value) else value
+                value = (value[0][0] if list_like(value[0]) else value[0]
+                         ) if list_like(value) else value
+                if isinstance(value, np.generic):
+                    # cells hold python values: numpy scalars are summed and
+                    # divided differently than the numbers read from a file
+                    value = value.item()
+                cell.value = value
 
                 # a reference to an empty cell gives None, which reads as not
                 # calculated, note that there can be dependants to reset
